@@ -26,7 +26,8 @@ def _problem():
     conv = st.builds(lambda md, n: (md, None, "convection", n), gen.model_convection(), st.integers(2, 8))
     burg = st.builds(lambda n: (dict(name="burgers"), None, "burgers", n), st.integers(2, 8))
     eul = st.builds(lambda md, fl, n: (md, fl, "euler1d", n), gen.model_euler1d(), st.sampled_from(["hlle", "hllc"]), st.integers(2, 8))
-    return st.one_of(conv, burg, eul)
+    e2d = st.builds(lambda md, fl, nx, ny: (md, fl, "euler2d", (nx, ny)), gen.model_euler2d(), st.sampled_from(["hlle", "centered"]), st.integers(2, 3), st.integers(2, 3))
+    return st.one_of(conv, burg, eul, eul, e2d)
 
 
 def _fields(kind):
@@ -34,11 +35,13 @@ def _fields(kind):
         return st.lists(gen.state_scalar(True, -2.0, 2.0, special=False), min_size=3, max_size=3)
     if kind == "burgers":
         return st.lists(gen.state_scalar(True, 0.3, 2.0, special=False), min_size=3, max_size=3)
+    if kind == "euler2d":
+        return st.lists(gen.state_euler2d(False, lnrange=0.4, machmax=1.0, smooth_amp=0.1), min_size=3, max_size=3)
     return st.lists(gen.state_euler(False, lnrange=0.5, machmax=1.2, smooth_amp=0.1), min_size=3, max_size=3)
 
 
 def _monitors(kind):
-    names = {"convection": ["q"], "burgers": [], "euler1d": ["density", "pressure", "mach", "massflow"]}[kind]
+    names = {"convection": ["q"], "burgers": [], "euler1d": ["density", "pressure", "mach", "massflow"], "euler2d": ["density", "pressure", "mach"]}[kind]
     res = st.builds(lambda f: {"residual": {"frequency": f}}, st.integers(1, 7))
     res_t = st.builds(lambda f: {"myres": {"type": "residual", "frequency": f}}, st.integers(1, 7))
     opts = [st.none(), res, res_t]
@@ -58,7 +61,17 @@ def strat(tier):
         solve = st.builds(lambda i, N, sv, mon, rep, ci: dict(op="solve", field=i, N=N, saves=sv, mon=mon, repeat=rep, cfl=ci), st.integers(0, 2), st.integers(1, 6),
                           st.one_of(st.none(), st.lists(gen.f(0.02, 0.98), min_size=1, max_size=4)), _monitors(kind), st.booleans(), cidx)
         restart = st.builds(lambda M, mon, ci: dict(op="restart", M=M, mon=mon, cfl=ci), st.integers(1, 5), _monitors(kind), cidx)
-        return st.builds(lambda L, num, integ, cfl, cfl2, fields, ctor, calls: dict(model=md, flux=fl, mesh=dict(kind="uni", n=n, length=L, x0=0.0), num=num, integ=integ, cfl=cfl, cfl2=cfl2, fields=fields, ctor_mon=ctor, calls=calls),
+        def mk(L, num, integ, cfl, cfl2, fields, ctor, calls):
+            d = dict(model=md, flux=fl, num=num, integ=integ, cfl=cfl, cfl2=cfl2, fields=fields, ctor_mon=ctor, calls=calls)
+            if kind == "euler2d":
+                d["mesh2d"] = dict(nx=n[0], ny=n[1], lx=L, ly=1.0)
+                d["num"] = dict(name="extrapol2d1") if num["name"] != "extrapol3" else dict(name="extrapol2dk", k=1.0 / 3.0)
+                if cases.is_implicit(integ):
+                    d["integ"] = "rk3ssp"        # implicit integrators do not support the vector momentum of euler2d
+            else:
+                d["mesh"] = dict(kind="uni", n=n, length=L, x0=0.0)
+            return d
+        return st.builds(mk,
                          gen.logf(-1, 1), st.sampled_from([dict(name="extrapol1"), dict(name="extrapol3"), dict(name="muscl", limiter="minmod")]),
                          st.sampled_from(ex + im + ["gear", "gear"]), gen.f(0.1, 0.8), gen.f(0.1, 0.8), _fields(kind), st.booleans(), st.builds(lambda first, rest: [first] + rest, solve, st.lists(st.one_of(solve, solve, restart), min_size=1, max_size=4)))
     return _problem().flatmap(hist)
@@ -111,8 +124,11 @@ def _avg(P, state, name, md, with_scale=False):
         from vf import oracles
         prim = cases.prim_from_cons(md, state.data)
         ref = oracles.gas_vars(md.get("gamma", 1.4), prim[0], prim[1], prim[2])
-        ref["massflow"] = prim[0] * prim[1]
-        ref["mach"] = prim[1] / np.sqrt(md.get("gamma", 1.4) * prim[2] / prim[0])
+        if md["name"] == "euler2d":
+            ref["mach"] = np.sqrt(ref["mach2"])
+        else:
+            ref["massflow"] = prim[0] * prim[1]
+            ref["mach"] = prim[1] / np.sqrt(md.get("gamma", 1.4) * prim[2] / prim[0])
         v = ref[name]
     if with_scale:
         return float(np.sum(vol * v) / np.sum(vol)), float(np.sum(vol * np.abs(v)) / np.sum(vol)) + 1e-300
@@ -141,6 +157,8 @@ def _judge_monitors(P, md, mon, states, it0, what):
         for it, t, v in zip(out._it, out._time, out._value):
             s_ = states[it - it0]
             require(abs(t - s_.time) <= 1e-12 * max(abs(s_.time), 1e-300), "monitor-time", "%s: monitor %r at iteration %d has time %r, the state at that iteration has %r" % (what, key, it, t, s_.time))
+            if mtype == "residual" and md["name"] == "euler2d":
+                continue          # the L2 norm of a vector residual has no stated definition: only iterations and times are judged in 2-D
             if mtype == "residual":
                 ref = _l2res(P, s_)
                 prim = cases.prim_from_cons(md, s_.data)
@@ -155,8 +173,13 @@ def check(case):
     P0 = None
     fields = []
     for sd in case["fields"]:
-        c = dict(model=md, mesh=case["mesh"], num=case["num"], flux=case["flux"], state=sd, bcL={"type": "per"}, bcR={"type": "per"})
-        P = sim.problem1d(c)
+        if md["name"] == "euler2d":
+            per = {"type": "per"}
+            P = sim.problem2d(dict(model=md, mesh2d=case["mesh2d"], num=case["num"], flux=case["flux"], state=sd, bc=dict(left=per, right=per, bottom=per, top=per)))
+            P.dxf = np.full(P.n, P.dx * P.dy)
+        else:
+            c = dict(model=md, mesh=case["mesh"], num=case["num"], flux=case["flux"], state=sd, bcL={"type": "per"}, bcR={"type": "per"})
+            P = sim.problem1d(c)
         if P0 is None:
             P0 = P
         fields.append(cases.build_field(P0.model, P0.mesh, P.cons))
